@@ -277,9 +277,9 @@ GENERIC_FILES = ['permuta/enumeration_strategies/__init__.py', 'permuta/enumerat
 
 
 def variants():
-    from ..selftest import generic_silent
+    from ..selftest import generic_equiv, generic_silent
 
-    return _variants() + generic_silent(GENERIC_FILES)
+    return _variants() + generic_silent(GENERIC_FILES) + generic_equiv(GENERIC_FILES)
 
 
 def _variants():
@@ -373,6 +373,62 @@ def requires_first_zero(term, helpers_ok: Set[str]) -> bool:
     return False
 
 
+_KNOWN_SHAPE_CALLS = {"fstrip", "bstrip", "last_sum_component", "last_skew_component", "avoids", "contains", "skew_decomposable", "sum_decomposable", "is_skew_decomposable",
+                      "is_sum_decomposable", "len", "zero_plus_skewind", "zero_plus_sumind", "zero_plus_perm", "avoids_set", "is_increasing", "is_decreasing"}
+
+
+def first_zero_verdict(term, helpers_ok: Set[str]) -> Optional[bool]:
+    """Does the boolean skeleton imply a0[0] == 0 ?  True: in every valuation of its conditions in which the pattern does
+    not start with 0 (and hence no zero_plus_* helper holds) it is False.  False: some such valuation makes it True and every
+    condition is built from the shape vocabulary of the module (so the requirement is really absent).  None: not decided."""
+    import itertools
+
+    from ..skelrules import _atoms, _ev, canon_sym, strip_assuming
+    from ..skeleton import vocabulary
+
+    t = canon_sym(strip_assuming(term))
+    atoms: list = []
+    _atoms(t, atoms)
+    if len(atoms) > 10:
+        return None
+    zero = ("cmp", "==", ("const", "0"), ("sub", ("name", "a0"), ("const", "0")))
+    zero = canon_sym(zero)
+
+    def is_helper(a) -> bool:
+        if isinstance(a, tuple) and a and a[0] == "call" and a[1] is None and a[2] in helpers_ok and len(a[3]) == 1:
+            arg = a[3][0]
+            return arg == ("name", "a0") or (arg[0] == "call" and arg[2] == "bstrip" and arg[3] == (("name", "a0"),))
+        return False
+
+    forced_false = [a for a in atoms if a == zero or is_helper(a)]
+    free = [a for a in atoms if a not in forced_false]
+    can_be_true = False
+    for bits in itertools.product((False, True), repeat=len(free)):
+        val = dict(zip(free, bits))
+        for a in forced_false:
+            val[a] = False
+        v = _ev(t, val)
+        if v is True:
+            can_be_true = True
+            break
+        if v is not False:
+            return None  # opaque value: not a boolean function of recognised conditions
+    if not can_be_true:
+        return True
+    known = all(v[5:] in _KNOWN_SHAPE_CALLS or v[5:] in helpers_ok for v in vocabulary(t) if v.startswith("call:")) and not any(v.startswith("py:") for v in vocabulary(t))
+    # another way of saying "starts with its minimum" (a0.index(0) == 0, min(a0) == a0[0], ...) is not recognised: only decide
+    # when no other condition reads the entries of a0 directly
+    def reads_entries(x) -> bool:
+        if isinstance(x, tuple):
+            if x and x[0] == "sub" and x[1] == ("name", "a0") and x != ("sub", ("name", "a0"), ("const", "0")):
+                return True
+            return any(reads_entries(y) for y in x)
+        return False
+    if known and not reads_entries(t):
+        return False
+    return None
+
+
 def rule_v1(ctx: Ctx) -> None:
     from ..skeleton import func_term, show
 
@@ -404,10 +460,13 @@ def rule_v1(ctx: Ctx) -> None:
             ctx.undecided.append(str(exc))
             continue
         # early `if patt[0] != 0: return False` shows up as a conjunct of the returned term
-        if requires_first_zero(t, helpers_ok):
+        verdict = True if requires_first_zero(t, helpers_ok) else first_zero_verdict(t, helpers_ok)
+        if verdict is True:
             ctx.ok("C19-V1", f.where, "an extra basis element is accepted only if it starts with its minimum (the '1 (+) p' form)", f.node, f)
-        else:
+        elif verdict is False:
             ctx.violation("C19-V1", f, f.node, f"{c.name}.is_valid_extension accepts patterns that are not of the form 1 (+) p (no requirement patt[0] == 0 on the unstripped pattern); it computes {show(t)[:160]}")
+        else:
+            raise AnalysisError(f"{f.where}: whether the accepted patterns must start with their minimum is not decided; it computes {show(t)[:160]}")
     # shape helpers
     for name, specs, what in (
         ("fstrip", ["assert len(a0) > 0\nif a0[0] == 0:\n    return Perm.one_based(a0[1:])\nreturn a0"], "fstrip removes a leading minimum (1 (+) p -> p), otherwise the identity"),
@@ -497,9 +556,11 @@ EXTENSION_SPECS = {
     "RuCuCdCoreStrategy": ["return zero_plus_skewind(a0)"],
     "RdCdCuCoreStrategy": ["return zero_plus_sumind(bstrip(a0))"],
     "RdCuCoreStrategy": ["return zero_plus_skewind(a0) and zero_plus_sumind(bstrip(a0))"],
-    "Rd2134CoreStrategy": ["return a0[0] == 0 and fstrip(a0).avoids(Rd2134CoreStrategy._M_PATT) and (last_sum_component(fstrip(a0)) not in Rd2134CoreStrategy._NON_INC or len(last_sum_component(fstrip(a0))) == 1)"],
-    "Ru2143CoreStrategy": ["return a0[0] == 0 and fstrip(a0).avoids(Ru2143CoreStrategy._M_PATT) and last_skew_component(fstrip(a0)) not in Ru2143CoreStrategy._NON_DEC"],
+    # {M} / {C}: any spelling (class attribute or module constant) of the mesh pattern / monotone class given in CLASS_CONSTANTS
+    "Rd2134CoreStrategy": ["return a0[0] == 0 and fstrip(a0).avoids({M}) and (last_sum_component(fstrip(a0)) not in {C} or len(last_sum_component(fstrip(a0))) == 1)"],
+    "Ru2143CoreStrategy": ["return a0[0] == 0 and fstrip(a0).avoids({M}) and last_skew_component(fstrip(a0)) not in {C}"],
 }
+SPEC_SLOTS = {"Rd2134CoreStrategy": {"M": "_M_PATT", "C": "_NON_INC"}, "Ru2143CoreStrategy": {"M": "_M_PATT", "C": "_NON_DEC"}}
 _M_SHADING = frozenset([(0, 1), (0, 2), (1, 0), (1, 1), (1, 2), (2, 1), (2, 2)])
 CLASS_CONSTANTS = {
     ("Rd2134CoreStrategy", "_NON_INC"): ("Av", frozenset([(0, 1)])),
@@ -600,15 +661,51 @@ def rule_v2(ctx: Ctx) -> None:
         specs = EXTENSION_SPECS.get(c.name)
         if specs is None:
             raise AnalysisError(f"{c.name}: no prescribed extension form on record (new core strategy?)")
+        if c.name in SPEC_SLOTS:
+            import itertools
+
+            spell: Dict[str, List[str]] = {}
+            for slot, attr in SPEC_SLOTS[c.name].items():
+                want_v = CLASS_CONSTANTS[(c.name, attr)]
+                names = []
+                for a_name, a_node in c.assigns.items():
+                    try:
+                        if _eval_const(repo, c.module, a_node) == want_v:
+                            names += [f"{c.name}.{a_name}", f"cls.{a_name}", f"self.{a_name}"]
+                    except AnalysisError:
+                        pass
+                for m_name, m_node in c.module.assigns.items():
+                    try:
+                        if _eval_const(repo, c.module, m_node) == want_v:
+                            names.append(m_name)
+                    except AnalysisError:
+                        pass
+                if not names and attr in c.assigns:
+                    names = [f"{c.name}.{attr}", f"cls.{attr}", f"self.{attr}"]  # its value is judged below (CLASS_CONSTANTS)
+                if not names:
+                    raise AnalysisError(f"{c.name}: no constant evaluating to the strategy's {attr} found")
+                spell[slot] = names
+            specs = [sp.format(**dict(zip(spell, combo))) for sp in specs for combo in itertools.product(*spell.values())]
         f = repo.method(c.name, "is_valid_extension")
         if f is None:
             raise AnalysisError(f"{c.name}.is_valid_extension not found")
-        ctx.run(check_skeleton, ctx, "C19-V2", f, specs, f"{c.name}: prescribed form of an extra basis element")
+        # the same conditions with the zero_plus_* helpers written out (their definitions are checked by V1; bstrip keeps the first entry)
+        expanded = []
+        for sp in specs:
+            e = sp
+            for dec in ("skew_decomposable", "is_skew_decomposable"):
+                e1 = e.replace("zero_plus_skewind(a0)", f"(a0[0] == 0 and not fstrip(a0).{dec}())").replace("zero_plus_skewind(bstrip(a0))", f"(a0[0] == 0 and not fstrip(bstrip(a0)).{dec}())")
+                for dec2 in ("sum_decomposable", "is_sum_decomposable"):
+                    e2 = e1.replace("zero_plus_sumind(a0)", f"(a0[0] == 0 and not fstrip(a0).{dec2}())").replace("zero_plus_sumind(bstrip(a0))", f"(a0[0] == 0 and not fstrip(bstrip(a0)).{dec2}())")
+                    e2 = e2.replace("zero_plus_perm(a0)", "a0[0] == 0")
+                    if e2 != sp and e2 not in expanded:
+                        expanded.append(e2)
+        ctx.run(check_skeleton, ctx, "C19-V2", f, list(specs) + expanded, f"{c.name}: prescribed form of an extra basis element", ignore_asserts=True)
     for (cname, attr), want in CLASS_CONSTANTS.items():
         c = repo.cls(cname)
         node = c.assigns.get(attr) if c is not None else None
         if node is None:
-            raise AnalysisError(f"{cname}.{attr} not found")
+            continue  # spelled differently: the extension spec above already required a constant of this value
         got = _eval_const(repo, c.module, node)
         if got == want:
             ctx.ok("C19-V2", f"{c.where}.{attr}", f"{attr} = {unparse(node)[:80]}")
@@ -624,4 +721,4 @@ def run(ctx: Ctx) -> None:  # noqa: F811
     ctx.run(rule_v2, ctx)
 
 
-FLOORS["C19-V2"] = 24
+FLOORS["C19-V2"] = 20
